@@ -15,4 +15,19 @@ PROPS = {
     },
 }
 
+PROPS["C07"] = {
+    "parts": [{"name": "entries", "pkg": "c07", "chk": "chk_c07"}],
+    "reasons": {"entries": {
+        "1": "a metadata key reached the target that no allow-list entry produces (after renaming) from a client-supplied key",
+        "2": "grpc-timeout was forwarded to the target as metadata",
+        "3": "a target header/trailer value reached the client without being allow-listed",
+        "4": "metadata crossed the bridge although the allow-list is empty (default deny)"}},
+    "rule": "per entry point (HTTP, WebSocket, gRPC-Web, gRPC-WebSocket, gRPC proxy): random allow-list/prefix configurations (25% default-deny) x header sets over a key pool "
+            "(mixed case, multi-valued, -bin with valid/invalid base64, Grpc-Metadata- prefixed, grpc-timeout) x target header/trailer sets; non-trivial = some allow-list non-empty and some header sent",
+    "level_text": "Coq theorems over ALL metadata maps and configurations: every outgoing key is a renamed allow-list entry present in the request with exactly its (decoded iff -bin) values; empty allow-lists forward nothing; grpc-timeout is never among the outgoing keys; response/trailer likewise; provenance from client-supplied pairs for each entry point's metadata construction. Tied to the code by running all five real entry points against a recording fake target.",
+    "level_note": "Trusted: Coq kernel, extraction, modelrun, Go harness (fakes, gorilla/websocket and grpc-go clients as drivers). strings.ToLower is modelled as ASCII lower-casing (keys are ASCII tokens). base64 decoding is modelled executable and exercised, not proved correct. grpc-go's own wire metadata is outside the property.",
+    "design_ref": "DESIGN.md §3 C07",
+    "assumptions": ["metadata keys are ASCII (HTTP tokens / gRPC keys); transports' own headers are subtracted by projecting the client side onto the generated key pool"],
+}
+
 NOT_APPLICABLE = {}
